@@ -8,6 +8,7 @@ MUTS = {
  'C06': [
   ('m1_no_swap_when_node1_is_reference', 'Network/NodalAnalysis/node_analysis.py', "    if network.is_zero_node(node1):\n        node1, node2 = node2, node1\n", "    if network.is_zero_node(node2):\n        node1, node2 = node2, node1\n"),
   ('m2_offdiag_index', 'Network/NodalAnalysis/node_analysis.py', "    return np.linalg.solve(A, unit_current)[i1]", "    return np.linalg.solve(A, unit_current)[i1-1]"),
+  ('m12_keep_mask_isclose', 'Network/NodalAnalysis/node_analysis.py', "    keep = A.any(axis=0)\n", "    keep = ~np.isclose(A, 0).all(axis=0)\n"),
   ('m9_unpruned_index_again', 'Network/NodalAnalysis/node_analysis.py', "    i1 = int(np.count_nonzero(keep[:node_index_mapper(network)[node1]]))", "    i1 = node_index_mapper(network)[node1]"),
   ('m10_admittance_matrix_instead_of_mna', 'Network/NodalAnalysis/node_analysis.py', "    A = nodal_analysis_coefficient_matrix(network, node_mapper=node_index_mapper)\n    keep", "    A = node_admittance_matrix(network, node_index_mapper=node_index_mapper)\n    keep"),
   ('m3_voc_sign', 'Network/NodalAnalysis/bias_point_analysis.py', "    return phi1-phi2", "    return phi2-phi1"),
